@@ -20,6 +20,7 @@ THEOREMS = ["C08_member_iff", "C08_member_iff_halo", "C08_partitions", "C08_part
             "C08_nonuniform_model", "C08_iter_active", "C08_equal_bounds", "C08_unequal_bounds",
             "C08_position_model", "C08_uniform_bounds", "C08_uniform_bounds_ascending",
             "C08_uniform_candidates", "C08_uniform_model", "C08_resplit_wf", "C08_skipped_lossless",
+            "C08_rankid_overrides", "C08_tensor_ids",
             "C08_model_meets_spec"]
 
 RULE = ("case = (split kind uniform/nonuniform/equal/unequal/truediv/floordiv with its argument, halo sizes "
@@ -52,14 +53,14 @@ EXPLANATION = ("oracle = reference map: boundaries enumerated, each lower fiber 
 KINDS = ["uniform", "nonuniform", "equal", "unequal", "truediv", "floordiv"]
 
 
-def gen_case(rng, kind=None, depth=None, tensor=None, resplit=None):
+def gen_case(rng, kind=None, depth=None, tensor=None, resplit=None, nlev=None):
     kind = kind or rng.choice(KINDS)
     if tensor is None:
         tensor = rng.random() < 0.2
     if depth is None:
         depth = 0 if kind in ("truediv", "floordiv") else rng.choice([0, 0, 0, 1, 2])
     below = rng.choice([0, 0, 1])
-    nlev = depth + 1 + below
+    nlev = nlev or depth + 1 + below
     if nlev > 3:
         nlev = 3
         depth = min(depth, 2)
@@ -96,8 +97,27 @@ def gen_case(rng, kind=None, depth=None, tensor=None, resplit=None):
         k2 = rng.choice(["uniform", "nonuniform", "equal", "unequal"])
         rs = [k2, gen_arg(rng, k2, shp[0]), rng.choice([0, 0, 1]), rng.choice([0, 0, 1])]
         rel = False
-    return dict(kind=kind, tree=tree, d=d, shapes=shapes, active=active, arg=arg, pre=pre, post=post,
-                rel=rel, depth=depth, tensor=bool(tensor), resplit=rs)
+    c = dict(kind=kind, tree=tree, d=d, shapes=shapes, active=active, arg=arg, pre=pre, post=post,
+             rel=rel, depth=depth, tensor=bool(tensor), resplit=rs)
+    if tensor and kind not in ("truediv", "floordiv"):
+        name_rank(rng, c)
+    return c
+
+
+def name_rank(rng, c, by=None):
+    """tensor entry: the rank to split (c["depth"] so far) is named by depth=, by rankid=, or by both
+    with a depth= that may conflict (the rank id has to win)"""
+    by = by or rng.choice(["depth", "rankid", "both", "both"])
+    e = c["depth"]
+    if by == "depth":
+        return
+    c["rankid"] = e
+    if by == "rankid":
+        c["depth"] = 0
+        c["depth_kw"] = False
+    else:
+        c["depth"] = rng.randrange(len(c["shapes"]))
+        c["depth_kw"] = True
 
 
 def gen_arg(rng, kind, shape):
@@ -149,7 +169,7 @@ def gen_none_default(rng, **kw):
     nlev = len(c["shapes"])
     shp = [rng.randint(2, 10) for _ in range(nlev)]
     c["tree"] = U.gen_fiber(rng, nlev, shp, 0, p_zero=rng.choice([0.2, 0.4, 0.6]),
-                            p_emptysub=rng.choice([0.0, 0.0, 0.15]) if c["depth"] else None)
+                            p_emptysub=rng.choice([0.0, 0.0, 0.15]) if C.eff(c) else None)
     if c["tensor"]:
         c["shapes"] = [x + rng.choice([0, 0, 2]) for x in shp]
     elif c["shapes"][0] is not None:
@@ -158,7 +178,7 @@ def gen_none_default(rng, **kw):
         a0 = rng.randint(0, shp[0])
         c["active"] = [a0, rng.randint(a0 + 1, shp[0] + 2)]
     if c["kind"] == "nonuniform":
-        c["arg"] = gen_arg(rng, "nonuniform", shp[c["depth"]])
+        c["arg"] = gen_arg(rng, "nonuniform", shp[C.eff(c)])
     c["d"] = C.NONE_D
     return c
 
@@ -189,6 +209,21 @@ def gen_history(rng):
     return c
 
 
+def gen_rank_naming(rng):
+    """tensor entry, 2-3 ranks, every rank as target, named by depth / rankid / both (agreeing and
+    conflicting depth=, incl. the top rank whose index is 0)"""
+    kind = rng.choice(["uniform", "nonuniform", "equal", "unequal"])
+    nlev = rng.choice([2, 3, 3])
+    e = rng.randrange(nlev)
+    c = gen_case(rng, kind=kind, depth=e, tensor=True, resplit=False, nlev=nlev)
+    assert len(c["shapes"]) == nlev
+    for k in ("rankid", "depth_kw"):
+        c.pop(k, None)
+    c["depth"] = e
+    name_rank(rng, c, by=rng.choice(["depth", "rankid", "both", "both", "both"]))
+    return c
+
+
 def streams(tier, rng):
     yield ("s18-witnesses", s18_witnesses(), False)
     n = 1500 if tier == "quick" else 20000
@@ -206,6 +241,7 @@ def streams(tier, rng):
     k = 400 if tier == "quick" else 4000
     yield ("none-default", [gen_none_default(rng) for _ in range(k)], False)
     yield ("read-grow-split", [gen_history(rng) for _ in range(k)], False)
+    yield ("tensor-rank-naming", [gen_rank_naming(rng) for _ in range(k)], False)
     if tier == "thorough":
         ex = exhaustive_small()
         yield ("exhaustive-0..4", ex, True)
@@ -217,13 +253,16 @@ def streams(tier, rng):
 
 def nontrivial(case):
     t = case["tree"]
-    for _ in range(case["depth"]):
+    for _ in range(C.eff(case)):
         t = [x for _, s in t for x in (s if not isinstance(s, int) else [])]
     return any(not U.is_empty_lit(s, case["d"]) for _, s in t)
 
 
 def describe(case):
-    return {"kind": case["kind"], "depth": case["depth"], "tensor": case["tensor"],
+    return {"kind": case["kind"], "depth": C.eff(case), "tensor": case["tensor"],
+            "rank_named_by": ("depth" if case.get("rankid") is None else
+                              "rankid" if not case.get("depth_kw", True) else
+                              "both-agree" if case["depth"] == case["rankid"] else "both-conflict"),
             "halo": bool(case["pre"] or case["post"]), "rel": case["rel"],
             "explicit_active": case["active"] is not None, "resplit": case["resplit"] is not None,
             "none_default": case["d"] == C.NONE_D, "history": case.get("hist") is not None,
@@ -255,9 +294,9 @@ def case_to_coq(c):
     if c.get("resplit"):
         k2, a2, pre2, post2 = c["resplit"]
         rs = "(Some (Build_sparams %s %s %s false))" % (_kind(k2, a2), L.z(pre2), L.z(post2))
-    return "(Build_c08_case %s %s %s %s %s %s %s %s)" % (
+    return "(Build_c08_case %s %s %s %s %s %s %s %s %s)" % (
         sp, L.tree(c["tree"]), L.z(c["d"]), L.lst(L.opt(s, L.z) for s in c["shapes"]), act,
-        L.nat(c["depth"]), L.b(c["tensor"]), rs)
+        L.nat(c["depth"]), L.opt(c.get("rankid"), L.nat), L.b(c["tensor"]), rs)
 
 
 def run_impl(case):
@@ -294,6 +333,12 @@ def shrinks(case):
         c = copy.deepcopy(case)
         c["rel"] = False
         yield c
+    if case.get("rankid") is not None and case.get("depth_kw", True) and case["depth"] != case["rankid"]:
+        for dd in range(len(case["shapes"])):
+            if dd != case["depth"] and dd != case["rankid"]:
+                c = copy.deepcopy(case)
+                c["depth"] = dd
+                yield c
     if case.get("hist"):
         c = copy.deepcopy(case)
         h = c["hist"]
@@ -316,6 +361,6 @@ def search(disagreeing, rng, rnd):
     out = []
     for c in disagreeing[:10]:
         for _ in range(20):
-            out.append(gen_case(rng, kind=c["kind"], depth=c["depth"], tensor=c["tensor"]))
+            out.append(gen_case(rng, kind=c["kind"], depth=C.eff(c), tensor=c["tensor"]))
     out += [gen_case(rng) for _ in range(200)]
     return out
